@@ -338,13 +338,28 @@ func (i *Instance) Crash() {
 type icKV struct {
 	walkv.KV
 	inst *Instance
+	mu   sync.Mutex
+	puts []string // values of all successful puts, in order (what has ever been logged)
+}
+
+// Puts returns the values of every event this instance has written to its WAL so far.
+func (k *icKV) Puts() []string {
+	k.mu.Lock()
+	defer k.mu.Unlock()
+	return append([]string{}, k.puts...)
 }
 
 func (k *icKV) Put(key, val []byte) error {
 	if err := k.inst.step(context.Background(), Step{Layer: "wal", Kind: "put", Key: string(key), Write: true}); err != nil {
 		return err
 	}
-	return k.KV.Put(key, val)
+	err := k.KV.Put(key, val)
+	if err == nil {
+		k.mu.Lock()
+		k.puts = append(k.puts, string(val))
+		k.mu.Unlock()
+	}
+	return err
 }
 
 func (k *icKV) Delete(key []byte) error {
